@@ -283,7 +283,7 @@ func (v *Verifier) Discharge(work string, tmo int, par int, depth int) []*Result
 		fn := filepath.Join(work, sanitizeFile(o.Name)+".smt2")
 		os.WriteFile(fn, []byte(text), 0o644)
 		files[i], texts[i] = fn, text
-		if o.Goal != nil && (strings.Contains(text, "(* ") || strings.Contains(text, "(div ") || strings.Contains(text, "(mod ")) {
+		if o.Goal != nil && (strings.Contains(text, "(* ") || strings.Contains(text, "(div ") || strings.Contains(text, "(mod ") || strings.Contains(text, "quo ")) {
 			q2 := &Query{Name: o.Name + " [nonlinear operations abstracted to uninterpreted functions]", Extra: q.Extra, Comment: q.Comment}
 			for _, a := range q.Assume {
 				q2.Assume = append(q2.Assume, v.c.AbstractNL(a))
